@@ -664,16 +664,19 @@ def all_strings(alpha: list[str], maxlen: int):
 class Deriver:
     """Random derivations: strings that are likely (not certain) to match."""
 
-    def __init__(self, rules: dict, rnd: random.Random, alpha: list[str]):
+    def __init__(self, rules: dict, rnd: random.Random, alpha: list[str], long: bool = False):
         self.rules = rules
         self.r = rnd
         self.alpha = alpha
         self.trivia = [c for c in (" ", "#", "\t") if c in alpha]
         self.budget = 0
+        self.long = long  # long mode: repetitions run for dozens of iterations (inputs of hundreds to thousands of characters)
+        self.refdepth = 0
 
     def derive(self, rule: str) -> str:
-        self.budget = 60
+        self.budget = 4000 if self.long else 60
         self.stack: list[str] = []
+        self.refdepth = 0
         return self.ev(("ref", rule))
 
     def tv(self) -> str:
@@ -681,7 +684,17 @@ class Deriver:
             return self.r.choice(self.trivia) * self.r.randint(1, 2)
         return ""
 
-    def ev(self, e) -> str:  # noqa: PLR0911, PLR0912
+    MAXLEN = 8000
+
+    def ev(self, e) -> str:
+        out = self._ev(e)
+        if len(out) > self.MAXLEN:
+            # PUSH(.. PEEK_ALL ..) inside a repetition doubles the text with every iteration: stop deriving
+            self.budget = -1
+            return out[: self.MAXLEN]
+        return out
+
+    def _ev(self, e) -> str:  # noqa: PLR0911, PLR0912
         r = self.r
         self.budget -= 1
         if self.budget < 0:
@@ -705,9 +718,12 @@ class Deriver:
                 self.stack.pop()
             return ""
         if k == "ref":
-            if e[1] not in self.rules:
+            if e[1] not in self.rules or self.refdepth > 12:
                 return ""
-            return self.ev(self.rules[e[1]][1])
+            self.refdepth += 1
+            out = self.ev(self.rules[e[1]][1])
+            self.refdepth -= 1
+            return out
         if k == "seq":
             out = ""
             for i, x in enumerate(e[1]):
@@ -724,14 +740,15 @@ class Deriver:
         if k == "tag":
             return self.ev(e[2])
         if k in ("star", "plus", "exact", "min", "max", "minmax"):
+            big = r.choice([25, 70, 200]) if self.long and self.refdepth <= 2 else 0
             if k == "star":
-                n = r.choice([0, 1, 2, 3])
+                n = big or r.choice([0, 1, 2, 3])
             elif k == "plus":
-                n = r.choice([1, 2, 3])
+                n = big or r.choice([1, 2, 3])
             elif k == "exact":
                 n = e[2]
             elif k == "min":
-                n = e[2] + r.choice([0, 1, 2])
+                n = e[2] + (big or r.choice([0, 1, 2]))
             elif k == "max":
                 n = r.randint(0, e[2])
             else:
@@ -782,6 +799,23 @@ def mutate(s: str, rnd: random.Random, alpha: list[str]) -> str:
     if c < 0.9:
         return s[:i]
     return s + s[max(0, i - 1) :]
+
+
+def long_inputs(rules: dict, start_rule: str, rnd: random.Random, alpha: list[str], n: int) -> list[str]:
+    """n long derivations (and one mutant) of at least 120 characters, if the grammar can produce them."""
+    d = Deriver(rules, rnd, alpha, long=True)
+    out: list[str] = []
+    for _ in range(n * 4):
+        s = d.derive(start_rule)
+        if 120 <= len(s) <= 6000 and s not in out:
+            out.append(s)
+            if len(out) >= n:
+                break
+    if out:
+        s = out[0]
+        i = rnd.randrange(len(s))
+        out.append(s[:i] + rnd.choice(alpha) + s[i + 1 :])
+    return out
 
 
 def inputs_for(rules: dict, start_rule: str, rnd: random.Random, cap: int, maxlen: int, extra_alpha: str = "") -> tuple[list[str], dict]:
